@@ -124,6 +124,47 @@ fn build_grid() -> Vec<Leaf> {
             v.push(Leaf { name: name(format!("grid/{}/{}", fname, on)), stmt: st, global_only: false, sema: *osema && fsema });
         }
     }
+    // gate modifiers: every modifier kind with every argument form (none, 0, 1, 2, 3, another
+    // radix, a name, an expression, redundant parentheses), alone and in chains of two
+    let margs: Vec<(&str, Option<Expr>)> = vec![
+        ("none", None),
+        ("0", Some(int(0))),
+        ("1", Some(int(1))),
+        ("2", Some(int(2))),
+        ("3", Some(int(3))),
+        ("hex1", Some(Expr::Int(s("0x1")))),
+        ("bin10", Some(Expr::Int(s("0b10")))),
+        ("id", Some(id("a"))),
+        ("sum", Some(bin(BinOp::Add, id("a"), int(1)))),
+        ("paren1", Some(Expr::Paren(Box::new(int(1))))),
+    ];
+    let three = || vec![opd_i("q", 0), opd_i("q", 1), opd_i("q", 2)];
+    let mk = |kind: usize, a: &Option<Expr>| -> Option<Modifier> {
+        match (kind, a) {
+            (0, a) => Some(Modifier::Ctrl(a.clone())),
+            (1, a) => Some(Modifier::NegCtrl(a.clone())),
+            (2, Some(e)) => Some(Modifier::Pow(e.clone())),
+            (3, None) => Some(Modifier::Inv),
+            _ => None,
+        }
+    };
+    let kinds = ["ctrl", "negctrl", "pow", "inv"];
+    for (k1, kn1) in kinds.iter().enumerate() {
+        for (an1, a1) in &margs {
+            let m1 = match mk(k1, a1) {
+                Some(m) => m,
+                None => continue,
+            };
+            v.push(Leaf { name: name(format!("grid/modifier/{}/{}", kn1, an1)), stmt: gc(vec![m1.clone()], "x", None, three()), global_only: false, sema: true });
+            for (k2, kn2) in kinds.iter().enumerate() {
+                for (an2, a2) in margs.iter().filter(|(n, _)| matches!(*n, "none" | "1" | "2" | "id")) {
+                    if let Some(m2) = mk(k2, a2) {
+                        v.push(Leaf { name: name(format!("grid/modifier2/{}/{}/{}/{}", kn1, an1, kn2, an2)), stmt: gc(vec![m1.clone(), m2], "x", None, three()), global_only: false, sema: true });
+                    }
+                }
+            }
+        }
+    }
     // delay designators: every literal class with every unit, and expressions
     let mut designators: Vec<(String, Expr)> = Vec::new();
     for unit in ["ns", "us", "µs", "ms", "s", "dt"] {
@@ -242,6 +283,9 @@ pub fn leaves() -> Vec<Leaf> {
         leaf("expr_call", Stmt::ExprStmt(Expr::Call(s("f1"), vec![id("a"), int(2)]))),
         leaf("expr_measure", Stmt::ExprStmt(Expr::Measure(opd("r")))),
         leaf("expr_binary", Stmt::ExprStmt(bin(BinOp::Sub, id("a"), id("b")))),
+        leaf("expr_neg_imag_float", Stmt::ExprStmt(un(UnOp::Neg, Expr::Timing(s("2.5"), true, "im")))),
+        leaf("expr_neg_imag_int", Stmt::ExprStmt(un(UnOp::Neg, Expr::Timing(s("2"), false, "im")))),
+        leaf("expr_imag_float", Stmt::ExprStmt(Expr::Timing(s("2.5"), true, "im"))),
         leaf("gate_call", gc(vec![], "h", None, vec![opd_i("q", 0)])),
         leaf("gate_call_2q", gc(vec![], "cx", None, vec![opd_i("q", 0), opd_i("q", 1)])),
         leaf("gate_call_param", gc(vec![], "rx", Some(vec![flt("0.5")]), vec![opd("r")])),
